@@ -265,6 +265,9 @@ func (e *env) pump() {
 }
 
 func (e *env) drainOnce() {
+	// atomic with respect to takeBroadcasts: what was taken from the queues is in e.pumped when this returns
+	e.pumpMu.Lock()
+	defer e.pumpMu.Unlock()
 	for {
 		got := e.rec.GetBroadcasts(3, 1<<20)
 		if len(got) == 0 {
@@ -275,11 +278,7 @@ func (e *env) drainOnce() {
 	out := e.rec.taken
 	e.rec.taken = nil
 	e.rec.mu.Unlock()
-	if len(out) > 0 {
-		e.pumpMu.Lock()
-		e.pumped = append(e.pumped, out...)
-		e.pumpMu.Unlock()
-	}
+	e.pumped = append(e.pumped, out...)
 }
 
 // takeBroadcasts returns everything queued for broadcast since the last call.
